@@ -217,12 +217,12 @@ class TorchTrainer(Trainer):
 
         # Load optimizer states from disk
         for optimizer_path in path.glob("*.optim.pt"):
-            name = optimizer_path.name.replace(".optim.pt", "")
+            name = optimizer_path.name.removesuffix(".optim.pt")
             self.optimizer_states[name] = torch.load(optimizer_path)  # pyright: ignore[reportUnknownMemberType]
 
         # Load scheduler states from disk
         for scheduler_path in path.glob("*.lrsch.pt"):
-            name = scheduler_path.name.replace(".lrsch.pt", "")
+            name = scheduler_path.name.removesuffix(".lrsch.pt")
             self.lr_scheduler_states[name] = torch.load(scheduler_path)  # pyright: ignore[reportUnknownMemberType]
 
         # After This method performed, load the state into the optimizer and LR scheduler by the `setup` method.
